@@ -117,7 +117,7 @@ HarmInfo _harm_analyze(arr_real spectrum, int nharm, bool aliased = false) {
         if (aliased) {
             freq = _alias_to_nyquist(freq, 2.0);
         }
-        if (freq > 1.0) {
+        if (!(freq <= 1.0)) {   //also stops on NaN (fundamental of zero power), which must not reach the int conversion below
             break;
         }
         const auto tn = _get_psd_tone(spectrum, freq);
